@@ -126,6 +126,9 @@ class Tr:
             self.arities.add(("alt_of", len(ns)))
             return "alt_of_%d(%s, input)?" % (len(ns), ", ".join(self.atom(n) for n in ns))
         b = re.sub(r"\balt\(\(\s*([\w\s,]+?)\s*\)\)\s*\(\s*input\s*\)\s*\?", g2, b)
+        # the same without `?` (the result matched explicitly): `match alt((..))(input) { Ok(x) => .., Err(e) => Err(e) }`
+        b = re.sub(r"\balt\(\(\s*([\w\s,]+?)\s*\)\)\s*\(\s*input\s*\)(?!\s*\?)", lambda m: g2(m)[:-1], b)
+        b = re.sub(r"\bErr\(\s*(\w+)\s*\)\s*=>\s*Err\(\s*\1\s*\)", "None => None", b)
         # G3
         b = re.sub(r"\bopt\(\s*(\w+)\s*\)\s*\(\s*input\s*\)\s*\?", lambda m: "opt_of(%s, input)?" % self.atom(m.group(1)), b)
         b = re.sub(r"\brange\(\s*(\w+)\s*\)\s*\(\s*input\s*\)\s*\?", lambda m: "range_of(%s, input)?" % self.atom(m.group(1)), b)
@@ -195,8 +198,8 @@ def class_fn(tr, text, fname, variant, members):
     extracted names, checks that the class still holds every token the property assigns to this level and none the property assigns to another level"""
     sig, body = extract_fn(text, fname)
     b = tr.body(fname, body)
-    m1 = re.search(r"alt_of_\d+\(([^()]*),\s*input\)\?", b)
-    m2 = re.search(r"run_t\((A::\w+),\s*input\)\?", b)
+    m1 = re.search(r"alt_of_\d+\(([^()]*),\s*input\)", b)
+    m2 = re.search(r"run_t\((A::\w+),\s*input\)", b)
     if m1:
         code_members = [x.strip() for x in m1.group(1).split(",") if x.strip()]
     elif m2:
